@@ -20,12 +20,13 @@ EVERY environment, EVERY `Trie::open` (a total function `bytes → Option D`) an
   `loadUser_none_iff` spells the latter out.
 * `sys_dicts_of_created`, `corrupt_system_pair_falls_back`, `loadSys_error_iff` — a missing / corrupt `word.dat` +
   `tsi.dat` pair falls back to the built-in dictionary (and the drop-ins are still loaded).
-* `drop_in_corrupt_skipped`, `drop_in_order`, `mem_dropInNames`, `drop_in_loaded_sublist` — a drop-in that does not open is
+* `drop_in_corrupt_skipped`, `drop_in_order`, `mem_dropInNames`, `drop_in_loaded_sublist`, `drop_in_sort_canonical` — a drop-in that does not open is
   skipped, the others keep their order; order = search-path order, then file-name order.
 * `search_path_split` — `split(':')` keeps empty segments; `find_path_first_complete` / `find_path_none_iff`.
 * parsers: total by type (`parseAbbrev`, `parseSymbols : List Nat → Option _`); `parse_fails_iff_not_utf8`;
   `parseSymbols_wf` — every table `symbols.dat` can produce satisfies C01's `SymWF` (the hypothesis `symOK` of C01's
-  invariant is discharged at creation); `symbols_orig_blank_line_not_wf` / `abbrev_orig_panics` = the repaired defects;
+  invariant is discharged at creation); `created_symbols_wf` — … of every created context; `symbols_orig_blank_line_not_wf` / `abbrev_orig_panics` = the
+  repaired defects;
   line-level print → parse round trips.
 
 **C17.** `sysHalf_local` / `newContext_local`: the result depends on the file system only at the paths built from ITS
@@ -119,6 +120,14 @@ theorem drop_in_names_perm {fs : FS} {seg : Path} {names : List Path} (h : fs (j
     (dropInNames fs seg).Perm
       (names.filter (fun n => (fs (joinPath (joinPath seg dictFolder) n)).isFile && extension n == some dropInExt)) := by
   unfold dropInNames; rw [h]; exact sortNames_perm _
+
+/-- the model's insertion sort stands for ANY sorting algorithm (`slice::sort` is a merge sort): a list that is sorted and
+    holds exactly the regular `*.dat` files of the directory IS `dropInNames` -/
+theorem drop_in_sort_canonical {fs : FS} {seg : Path} {names l : List Path} (h : fs (joinPath seg dictFolder) = .dir names)
+    (hs : Sorted l)
+    (hp : l.Perm (names.filter (fun n => (fs (joinPath (joinPath seg dictFolder) n)).isFile && extension n == some dropInExt))) :
+    l = dropInNames fs seg :=
+  sorted_perm_eq hs ((drop_in_order fs [] ).2 seg) (hp.trans (drop_in_names_perm h).symm)
 
 /-- **a corrupt drop-in is skipped and the others keep their order** -/
 theorem drop_in_corrupt_skipped (op : List Nat → Option D) (fs : FS) (sp : Path) (l1 l2 : List Path) (p : Path)
@@ -503,6 +512,28 @@ theorem sys_dicts_of_created (P : Params D U) (b : D) (hb : P.builtin = some b) 
       | ok r => cases r <;> simp [hr] at h; subst h; exact ⟨rfl, rfl, rfl, rfl, rfl⟩
       | panic s => simp [hr] at h
       | outOfFuel => simp [hr] at h
+
+theorem loadSymbols_wf {fs : FS} {sp : Path} {y : SymSel} (h : loadSymbols fs sp = .ok y) : C01.SymWF y := by
+  unfold loadSymbols loadTable at h
+  split at h
+  · cases h
+  · split at h
+    · split at h
+      · next hp => cases h; exact parseSymbols_wf _ _ hp
+      · cases h
+    · cases h
+
+/-- **the symbol table of EVERY created context is well formed** (`C01.SymWF`, the clause `symOK` of C01's invariant):
+    whatever `symbols.dat` holds — or if it is missing, unreadable, not UTF-8 — no later choice in the symbol menu can hit
+    the `unwrap()` / the out-of-range index of `SymbolSelector::select` -/
+theorem created_symbols_wf (P : Params D U) (b : D) (hb : P.builtin = some b) (fs : FS) (env : SysLoader.Env)
+    (syspath userpath : PathArg) (c : NewCtx D U) (h : newContext P fs env syspath userpath = .ok (some c)) :
+    C01.SymWF c.symbols := by
+  have := (sys_dicts_of_created P b hb fs env syspath userpath c h).2.2.1
+  rw [this]
+  cases hl : loadSymbols fs (searchPathOf fs env syspath) with
+  | ok y => exact loadSymbols_wf hl
+  | error e => exact parseSymbols_wf [] _ rfl
 
 /-- **a corrupt or missing system dictionary pair falls back to the built-in dictionary** (the drop-ins are still loaded
     behind it) -/
